@@ -20,6 +20,8 @@ _BLOCK = ("    total = 0\n    for item in items:\n        if item.value > thresh
 _BODY = "def planted(items, threshold, factor):\n" + _BLOCK + "\n\ndef planted_again(items, threshold, factor):\n" + _BLOCK
 
 
+_PYPROJECT = ("[project]\nname = \"demo\"\nversion = \"0.0.1\"\n\n[tool.thailint.nesting]\nmax_nesting_depth = 2\n\n"
+              "[tool.thailint.magic-numbers]\nallowed_numbers = [0, 1, 4242]\n\n[tool.thailint.srp]\nmax_methods = 1\n")
 _IGNORE_POOL = ["lib", "pkg", "gen", "src/gen", "lib/lib", "*gen", "lib/", "a.py", "*/b.py", "src"]
 
 
@@ -101,7 +103,7 @@ def entrypoints_bounded(ctx):
     from pyvc import native as _native
     _native._ensure_repo_on_path()  # `import src` must be the tree under verification ($VERIF_REPO), not an installed copy
     base = tempfile.mkdtemp(prefix="c10diff_")
-    cases = excluded_targets = double_seen = 0
+    cases = excluded_targets = double_seen = pyproject_seen = 0
     try:
         try:
             from loguru import logger as _lg
@@ -117,7 +119,11 @@ def entrypoints_bounded(ctx):
             root.mkdir()
             t = _tree(rng, 2)
             _write(str(root), t)
-            if rng.random() < 0.5:
+            src_kind = rng.choice(["yaml", "json", "pyproject"])
+            if src_kind == "pyproject":  # configuration carried ONLY by pyproject.toml ([tool.thailint.<linter>] tables)
+                (root / "pyproject.toml").write_text(_PYPROJECT, encoding="utf-8")
+                pyproject_seen += 1
+            elif src_kind == "yaml":
                 (root / ".thailint.yaml").write_text(_ROOT_CONFIG, encoding="utf-8")
             else:  # the same configuration discovered as .thailint.json
                 import json as _json
@@ -185,6 +191,9 @@ def entrypoints_bounded(ctx):
             clear_ignore_parser_cache()
         except BaseException:  # noqa
             pass
+    if pyproject_seen == 0:
+        return [dict(name=name, kind="bounded", verdict="unknown", carries=True, tool="native differential runs", cases=cases,
+                     budget=f"{n} projects", note="generator too weak: no pyproject-only project")]
     if double_seen == 0:
         return [dict(name=name, kind="bounded", verdict="unknown", carries=True, tool="native differential runs", cases=cases,
                      budget=f"{n} projects", note="generator too weak: no run with two different violations at one location")]
